@@ -651,6 +651,14 @@ func (f *codecFam) generate(rng *rand.Rand, n int, out *emitter) {
 		for _, j := range junk {
 			out.call(M{"e": "Direct", "fn": fn, "cls": "junk", "n": len(j), "hex": hx(j)})
 		}
+		// well-formed bencode strings of the remarkable payload lengths, cut short at every point (a decoder called
+		// directly - not through the bencode library, which only hands over complete values - sees these)
+		for _, l := range []int{0, 1, 4, 6, 16, 18, 19, 20, 21, 26, 38, 40, 52} {
+			full := sim.Encode(rbytes(rng, l))
+			for cut := 0; cut < len(full); cut++ {
+				out.call(M{"e": "Direct", "fn": fn, "cls": "junk", "n": cut, "hex": hx(full[:cut])})
+			}
+		}
 		for i := 0; i < 20+n/50; i++ {
 			out.call(M{"e": "Direct", "fn": fn, "cls": "junk", "n": 0, "hex": hx(mutate(rng, sim.Encode(genAny(rng, 0))))})
 		}
